@@ -69,6 +69,10 @@ def scenario(exe, shim, root, seed, stats):
     if rng.chance(1, 2):
         os.makedirs(os.path.join(a.ddir(dl), 'deep', 'er', 'empty'), exist_ok=True)
         if not os.path.lexists(a.path(dl, 'album/up')): os.symlink('../deep', a.path(dl, 'album/up'))
+    # a hard-linked pair (recorded as a file and a hardlink to it)
+    dh = rng.choice(a.disks)
+    a.write(dh, 'hl/target.bin', rng.bytes(1800), s.tick())
+    if not os.path.lexists(a.path(dh, 'hl/link.bin')): os.link(a.path(dh, 'hl/target.bin'), a.path(dh, 'hl/link.bin'))
     if rng.chance(1, 2) and len(a.disks) > 1:
         # the same name is a link to a directory on one disk and a real directory on another: the pool entry of the
         # second must not be created THROUGH the pool link of the first (that would be inside the data disk)
@@ -115,6 +119,13 @@ def scenario(exe, shim, root, seed, stats):
                 os.makedirs(os.path.join(a.root, 'outside'), exist_ok=True)
                 os.symlink(os.path.join(a.root, 'outside', 'made-by-fix-%s' % d), a.path(d, rel)); s.log('empty file %s/%r replaced by a dangling link' % (d, rel))
             stats['empty_to_link'] = stats.get('empty_to_link', 0) + 1
+    hl_case = False
+    if rng.chance(1, 2) and os.path.exists(a.path(dh, 'hl/target.bin')) and os.path.exists(a.path(dh, 'hl/link.bin')):
+        # one name of the hard-linked pair is gone, the other still holds the data; a fix that selects only the surviving name
+        # has nothing to write there
+        gone_n, kept_n = rng.choice([('hl/target.bin', 'hl/link.bin'), ('hl/link.bin', 'hl/target.bin')])
+        os.unlink(a.path(dh, gone_n)); s.log('%s/%s removed, %s/%s (same inode) kept' % (dh, gone_n, dh, kept_n))
+        hl_case = kept_n
     dec = fx.decode(a)
     zero_nsec = set()
     for f in dec.files:
@@ -126,7 +137,7 @@ def scenario(exe, shim, root, seed, stats):
             ('check', ['-f', 'base0/']), ('scrub', ['-p', 'full']), ('scrub', ['-p', '50', '-o', '0']), ('sync', ['--force-empty', '--force-zero']),
             ('sync', ['--force-empty', '--force-zero', '-B', '2']), ('fix', []), ('fix', ['-d', a.disks[0]]), ('fix', ['-m']), ('fix', ['-f', 'base1/']), ('fix', ['-e']), ('fix', ['-S', '0', '-B', str(1 + rng.below(6))]), ('fix', ['-S', str(rng.below(4)), '-B', str(1 + rng.below(4))]),
             ('pool', []), ('touch', []), ('devices', [])]
-    picks = [cmds[rng.below(len(cmds))] for _ in range(7)] + [('pool', []), ('touch', []), ('fix', []), ('sync', ['--force-empty', '--force-zero']), ('fix', ['-e']), ('fix', ['-S', '0', '-B', str(1 + rng.below(6))])]
+    picks = [cmds[rng.below(len(cmds))] for _ in range(7)] + ([('fix', ['-f', '/' + hl_case])] if hl_case else []) + [('pool', []), ('touch', []), ('fix', []), ('sync', ['--force-empty', '--force-zero']), ('fix', ['-e']), ('fix', ['-S', '0', '-B', str(1 + rng.below(6))])]
     for cmd, args in picks:
         shutil.rmtree(a.root); shutil.copytree(backup, a.root, symlinks=True)
         lg = os.path.join(vlib.scratch(), 'mon_%d_%d.log' % (seed, stats['runs']))
